@@ -18,7 +18,8 @@ import Hgxv.Model.C09Ext
   second extension round:
   `annall`                      -> keys of `annealed_adjacency_matrices_all_orders` (`-` for none), or `rej`
   `annord d`                    -> its matrix of order `d`, or `rej`
-  `afac t`                      -> `adjacency_factor(h, t)` as `label:value,...`  -/
+  `afac t`                      -> `adjacency_factor(h, t)` as `label:value,...`
+  `dualhyes` | `dualinc`        -> index hyperedges of the dual hypergraph | its binary incidence matrix (shape E x N) or `rej`  -/
 open Wire C09
 
 structure St where
@@ -93,6 +94,8 @@ def step (s : St) : List String → St × String
   | ["annord", d] => (s, match annealedOne d.toNat! s.recs with | none => "rej" | some m => showRatss m)
   | ["afac", t] => (s, showList "," "-" (fun (p : Nat × Rat) => toString p.1 ++ ":" ++ showRat p.2)
       (adjFactor t.toNat! s.nodes (edges s)))
+  | ["dualhyes"] => (s, showNatss (dualHyes s.nodes (edges s)))
+  | ["dualinc"] => (s, match (dualInc s.nodes (edges s) : Option (List (List Rat))) with | none => "rej" | some m => showRatss m)
   | ["ttimes"] => (s, showNats (times s.recs))
   | ["tadj", t] => (s, showRatss (temporalAdj s.recs t.toNat!))
   | ["tmap", t] => (s, showMap (mapping (snapshotNodes s.recs t.toNat!)))
